@@ -17,7 +17,7 @@ os.makedirs("/tmp/sv", exist_ok=True)
 sh("git -C /repo worktree remove --force %s" % wt)
 rc, o = sh("git -C /repo worktree add -q --detach %s HEAD" % wt)
 assert rc == 0, o
-meta = {"property": pid, "variant": var, "source": "independent sub-agent given only the property text" + (" and one line each about the two earlier changes (round 2)" if var in ("c", "d", "e") else "")}
+meta = {"property": pid, "variant": var, "source": "independent sub-agent given only the property text" + (" and one line each about the two earlier changes (round 2)" if var in ("c", "d", "e", "f") else "")}
 patchname = "patch_rebased.diff" if os.path.exists(src + "/patch_rebased.diff") else "patch.diff"
 meta["patch"] = patchname + (" (the sub-agent's patch.diff, re-based by hand onto a later fix: commit of /repo that touched the same lines)" if patchname != "patch.diff" else "")
 try:
